@@ -229,7 +229,7 @@ def run(rep):
     # MATRIX regions: or over rows of and over cells, with per-column presence and the per-evaluation cache
     rep.describe("TRI-MATRIX", "Matrix: or over rows of (and over the row's cells in order; a cell whose column is absent is missing); under all(): every row; under of(n): at least n rows")
 
-    def matrix_tables(kind, layouts):
+    def matrix_tables(kind, layouts, via_ident=False):
         for lname, ncols, rows in layouts:
             # rows: list of rows, each a list of column indices that have a cell (others None)
             cells = []
@@ -245,6 +245,12 @@ def run(rep):
                 shape_rows.append(("list", row))
             mat = E("Matrix", ("list", [("col", i) for i in range(ncols)]), ("list", shape_rows))
             shape = mat if kind is None else E("Match", kind, mat)
+            idmap = {}
+            if via_ident:
+                # all(X) / of(X, n) where the identifier X was turned into a matrix (coalesce off, matrix on)
+                shape = E("Match", kind, E("Identifier", ("lit", "X")))
+                idmap = {"X": mat}
+                lname = lname + "/via-identifier"
             bad = []
             n = 0
             try:
@@ -253,7 +259,7 @@ def run(rep):
                         total[0] += 1
                         n += 1
                         oracle = lambda i: SR(vec[i])
-                        v = S.call("solver::solve_expression", [shape, ("map", {}), ("doc", pres)], oracle, {})
+                        v = S.call("solver::solve_expression", [shape, ("map", idmap), ("doc", pres)], oracle, idmap)
                         got = v[1]
                         # spec
                         rowvals = []
@@ -292,6 +298,8 @@ def run(rep):
     matrix_tables(("ctor", "Match", "All", []), layouts[:4])
     for nn in (0, 1, 2):
         matrix_tables(("ctor", "Match", "Of", [nn]), layouts[:4])
+    matrix_tables(("ctor", "Match", "All", []), layouts[:4], via_ident=True)
+    matrix_tables(("ctor", "Match", "Of", [2]), layouts[:4], via_ident=True)
 
     # EDGE: structural check on the first match of the BooleanExpression arm
     se = S.fns["solver::solve_expression"]
@@ -369,6 +377,8 @@ def run(rep):
     # the optimised forms of and/or must keep the operand order the tables above depend on (shared with C01)
     import core
     core.import_rules(rep, "c01", {"LINEAR"})
+    # of(k, n) over a batched list: the batched count is the number of true members
+    core.import_rules(rep, "c08", {"T-COUNT"}, key_prefixes=("T-COUNT/",))
     core.import_rules(rep, "c03", {"L-MATRIX"}, key_prefixes=("L-MATRIX/lookup-", "L-MATRIX/one-cell-per-column", "L-MATRIX/pass-agreement"))
     # the of(n)/all() tables are stated over the written members: the optimiser keeps the quantifier and the counted group as they are
     core.import_rules(rep, "c01", {"COUNTER-CONTEXT"}, key_prefixes=("COUNTER-CONTEXT/shake_0/", "COUNTER-CONTEXT/shake_1/", "COUNTER-CONTEXT/matrix/"))
@@ -378,7 +388,7 @@ def run(rep):
     rep.floor("TRI-ALL", 2 * KMAX)
     rep.floor("TRI-OF", 2 * KMAX * 3)
     rep.floor("TRI-NOT", 6)
-    rep.floor("TRI-MATRIX", 21)
+    rep.floor("TRI-MATRIX", 29)
     rep.floor("TRI-VERDICT", 10)
     rep.exhaustive = True
     rep.extra["model_evaluations"] = total[0]
